@@ -59,6 +59,13 @@ func main() {
 	in := bufio.NewReaderSize(os.Stdin, 1<<20)
 	out := bufio.NewWriterSize(os.Stdout, 1<<16)
 	defer out.Flush()
+	// the code under test prints (cobra usage, console summaries): keep it off the protocol channel
+	if devnull, err := os.OpenFile(os.DevNull, os.O_WRONLY, 0); err == nil {
+		os.Stdout = devnull
+		if os.Getenv("VERIF_DEBUG") == "" {
+			os.Stderr = devnull
+		}
+	}
 	for {
 		line, err := in.ReadString('\n')
 		line = strings.TrimSpace(line)
